@@ -17,7 +17,7 @@
 EXTENDS Integers, Sequences, FiniteSets, TLC
 
 CONSTANTS MaxAttempts,   \* 3: the SDK's default
-          Variant        \* "code" | "Sha1AsSha256" | "PssIgnored" | "SwallowSignError" | "RawMessage" | "RetryForever" | "AskWithoutId"
+          Variant        \* "code" | "RememberAlgorithm" | "Sha1AsSha256" | "PssIgnored" | "SwallowSignError" | "RawMessage" | "RetryForever" | "AskWithoutId"
 
 Specs == {"RSA_2048", "ECC_NIST_P256", "ECC_NIST_P384"}
 Hashes == {"sha1", "sha256", "sha384", "sha512"}
@@ -26,13 +26,15 @@ SignFaults == {"none", "denied", "unavailable", "throttle-once", "internal-once"
 Transient(f) == f \in {"throttle-once", "internal-once", "throttle-always", "unavailable"}
 
 VARIABLES cfg,      \* [spec, idSet]
-          req,      \* [hash, pss]
+          req,      \* [hash, pss]: the signature being made
+          later,    \* signatures still to be made with the same key object: a sequence of [hash, pss] (at most one)
           faults,   \* [get, sign]
           pc,       \* "getkey" | "asking-key" | "sign" | "asking-sign" | "done"
           calls,    \* remote calls so far: <<[op, alg, mtype, outcome]>>
           tries,    \* attempts of the call in progress
           result    \* "none" | "signature" | "error"
-vars == <<cfg, req, faults, pc, calls, tries, result>>
+          , done    \* the requests already served: <<[hash, pss, first, last]>> (indices into calls)
+vars == <<cfg, req, later, faults, pc, calls, tries, result, done>>
 
 KeyType(s) == IF s = "RSA_2048" THEN "rsa" ELSE "ec"
 HashName(h) == CASE h = "sha256" -> "SHA_256" [] h = "sha384" -> "SHA_384" [] h = "sha512" -> "SHA_512" [] OTHER -> "?"
@@ -49,6 +51,11 @@ Init ==
   /\ (faults.get # "none" => faults.sign = "none")
   /\ (KeyType(cfg.spec) = "ec" => ~req.pss)
   /\ ((Transient(faults.get) \/ Transient(faults.sign)) => (req.hash \in {"sha256", "sha384"} /\ ~req.pss))
+  \* a second signature with the same key object and other options: only where nothing is scripted to fail
+  /\ later \in {<<>>} \cup {<<r>> : r \in [hash : Hashes \ {"sha1"}, pss : BOOLEAN]}
+  /\ (later # <<>> => (faults.get = "none" /\ faults.sign = "none" /\ req.hash # "sha1" /\ later[1] # req
+                        /\ (KeyType(cfg.spec) = "ec" => ~later[1].pss)))
+  /\ done = <<>>
   /\ pc = "getkey" /\ calls = <<>> /\ tries = 0 /\ result = "none"
 
 Call(op, alg, mtype, outcome) == Append(calls, [op |-> op, alg |-> alg, mtype |-> mtype, outcome |-> outcome])
@@ -64,7 +71,7 @@ Retryable(o) == o \in {"ThrottlingException", "KMSInternalException", "KeyUnavai
 GetKey ==
   /\ pc = "getkey"
   /\ IF ~cfg.idSet /\ Variant # "AskWithoutId" THEN pc' = "done" /\ result' = "error" ELSE pc' = "asking-key" /\ UNCHANGED result
-  /\ UNCHANGED <<cfg, req, faults, calls, tries>>
+  /\ UNCHANGED <<cfg, req, later, faults, calls, tries, done>>
 
 AskKey ==
   /\ pc = "asking-key"
@@ -74,17 +81,19 @@ AskKey ==
                                                       ELSE pc' = "sign" /\ tries' = 0 /\ UNCHANGED result
            ELSE IF Retryable(o) /\ (tries + 1 < MaxAttempts \/ Variant = "RetryForever") THEN tries' = tries + 1 /\ UNCHANGED <<pc, result>>
            ELSE pc' = "done" /\ result' = "error" /\ tries' = 0
-  /\ UNCHANGED <<cfg, req, faults>>
+  /\ UNCHANGED <<cfg, req, later, faults, done>>
 
 \* algorithm selection, locally
 Sign ==
   /\ pc = "sign"
   /\ IF req.hash = "sha1" /\ Variant # "Sha1AsSha256" THEN pc' = "done" /\ result' = "error" ELSE pc' = "asking-sign" /\ UNCHANGED result
-  /\ UNCHANGED <<cfg, req, faults, calls, tries>>
+  /\ UNCHANGED <<cfg, req, later, faults, calls, tries, done>>
 
 PipeAlg ==
   LET h == IF req.hash = "sha1" THEN "sha256" ELSE req.hash
-  IN AlgOf(cfg.spec, h, req.pss /\ Variant # "PssIgnored")
+      prev == {i \in DOMAIN done : done[i].hash = req.hash}
+  IN IF Variant = "RememberAlgorithm" /\ prev # {} THEN calls[done[CHOOSE i \in prev : TRUE].last].alg
+     ELSE AlgOf(cfg.spec, h, req.pss /\ Variant # "PssIgnored")
 
 AskSign ==
   /\ pc = "asking-sign"
@@ -96,11 +105,14 @@ AskSign ==
               ELSE IF req.hash = "sha1" /\ mt = "DIGEST" THEN "ValidationException"     \* a 20-byte digest for SHA_256
               ELSE "ok"
      IN /\ calls' = Call("Sign", a, mt, o)
-        /\ IF o = "ok" THEN pc' = "done" /\ result' = "signature" /\ tries' = 0
-           ELSE IF Retryable(o) /\ (tries + 1 < MaxAttempts \/ Variant = "RetryForever") THEN tries' = tries + 1 /\ UNCHANGED <<pc, result>>
-           ELSE /\ pc' = "done" /\ tries' = 0
+        /\ IF o = "ok"
+             THEN /\ tries' = 0 /\ done' = Append(done, [hash |-> req.hash, pss |-> req.pss, last |-> Len(calls) + 1])
+                  /\ IF later = <<>> THEN pc' = "done" /\ result' = "signature" /\ UNCHANGED <<req, later>>
+                                     ELSE pc' = "sign" /\ req' = later[1] /\ later' = <<>> /\ UNCHANGED result
+           ELSE IF Retryable(o) /\ (tries + 1 < MaxAttempts \/ Variant = "RetryForever") THEN tries' = tries + 1 /\ UNCHANGED <<pc, result, req, later, done>>
+           ELSE /\ pc' = "done" /\ tries' = 0 /\ UNCHANGED <<req, later, done>>
                 /\ result' = IF Variant = "SwallowSignError" THEN "signature" ELSE "error"
-  /\ UNCHANGED <<cfg, req, faults>>
+  /\ UNCHANGED <<cfg, faults>>
 
 Next == GetKey \/ AskKey \/ Sign \/ AskSign
 Spec == Init /\ [][Next]_vars /\ WF_vars(Next)
@@ -112,15 +124,18 @@ TypeOK == pc \in {"getkey", "asking-key", "sign", "asking-sign", "done"} /\ resu
 \* nothing is asked about a key entry that names no key
 NoCallWithoutId == ~cfg.idSet => calls = <<>>
 \* a digest algorithm the token does not support is refused here, not sent under another name
-LocalRefusal == req.hash = "sha1" => SignCalls = {}
+LocalRefusal == (req.hash = "sha1" /\ done = <<>>) => SignCalls = {}
 \* the request names the algorithm the caller's options stand for, on a digest
-AlgorithmRight == \A i \in SignCalls : calls[i].alg = AlgOf(cfg.spec, req.hash, req.pss) /\ calls[i].mtype = "DIGEST"
+\* (the request a call belongs to: a served one whose last call it is or precedes, else the one in progress)
+ReqOf(i) == LET d == {j \in DOMAIN done : i <= done[j].last /\ (j = 1 \/ i > done[j-1].last)}
+            IN IF d = {} THEN req ELSE [hash |-> done[CHOOSE j \in d : TRUE].hash, pss |-> done[CHOOSE j \in d : TRUE].pss]
+AlgorithmRight == \A i \in SignCalls : calls[i].alg = AlgOf(cfg.spec, ReqOf(i).hash, ReqOf(i).pss) /\ calls[i].mtype = "DIGEST"
 \* a signature comes only from the service's successful answer
 SignatureFromService == result = "signature" => (SignCalls # {} /\ calls[Len(calls)].op = "Sign" /\ calls[Len(calls)].outcome = "ok")
 \* a refusal or a fault that outlasts the retries is reported
 ErrorsSurface == (pc = "done" /\ calls # <<>> /\ calls[Len(calls)].outcome # "ok") => result = "error"
 \* no operation is attempted more often than the SDK allows
-BoundedAttempts == Cardinality(SignCalls) <= MaxAttempts /\ Len(calls) - Cardinality(SignCalls) <= MaxAttempts
+BoundedAttempts == Cardinality(SignCalls) <= MaxAttempts + Len(done) /\ Len(calls) - Cardinality(SignCalls) <= MaxAttempts
 \* a transient fault that clears is invisible to the caller
 TransientIsHidden == (pc = "done" /\ cfg.idSet /\ faults.get \in {"none", "throttle-once", "internal-once"}
                         /\ faults.sign \in {"none", "throttle-once", "internal-once"}
